@@ -1,0 +1,23 @@
+//go:build verif
+
+// Contracts for deductive verification (comment-only; compiled only with -tags verif).
+package consts
+
+// ---- C04: every status code has a status line ----
+// StatusLine never answers with nothing: what it returns is a cached line it found non-nil, or the line it has just
+// formatted in this call (slFmt) ("HTTP/1.1 <code> <text>\r\n") - for every integer, registered or not. (That the cached lines are the
+// ones formatted earlier is a property of the copy-on-write map all writers of which are in this function; it is not
+// part of this contract.)
+//@ ghost var slFmt bool
+//@ func StatusLine(statusCode) r
+//@   props C04, C05, C03
+//@   abstract
+//@   noinline
+//@   allocates
+//@   modifies slFmt
+//@   ghostset-at-entry slFmt = false
+//@   ghostset after Sprintf: slFmt = true
+//@   top-ensures r != nil || slFmt
+// Assumed (fmt.Sprintf is not modelled): the line ends in CRLF and has no other CR or LF - the status text comes from
+// the table of constants or is "Unknown Status Code".
+//@   assumed-ensures len(r) >= 2 && r[len(r)-2] == '\r' && r[len(r)-1] == '\n' && forall(k, 0, len(r) - 2, r[k] != '\r' && r[k] != '\n')
